@@ -1,7 +1,7 @@
 SPECIFICATION Spec
 CONSTANTS
-  Alphabet = {"lt", "gt", "slash", "qmark", "bang", "eq", "dq", "sp", "nl", "x", "nul"}
-  MaxLen = 5
+  Alphabet = {"cdata", "cdend", "cdo", "cdc", "lt", "bang", "dash", "rb", "gt", "x", "nul"}
+  MaxLen = 6
   Emit = TRUE
   VoidClosesTag = TRUE
   NameStopNeedsGt = TRUE
